@@ -21,7 +21,7 @@ func init() {
 		Title: "Payment gauges stream linearly and never release more than the pro-rata deposit",
 		Cases: func(t string) int { return tierN(t, 140, 2600) },
 		Run:   runC12,
-		Rule: "case = one history creating 1-6 gauges (plan purchases and pay-once posts; amounts 1..1e15 via size, duration and price feed; durations 1 day..3 years; optionally 2-4 purchases with identical parameters in one block) followed by 20-45 blocks whose time steps are drawn from {0, 1us, 0.5s, 1s, 6s, 1h, 1d, 10d, 45d, 200d} with reward interval 2-5; " +
+		Rule: "case = one history creating 1-6 gauges (plan purchases and pay-once posts; amounts 1..1e15 via size, duration and price feed; durations 1 day..3 years; optionally 2-4 purchases with identical parameters in one block; 7% of the histories keep 101-140 gauges alive at once) followed by 20-45 blocks whose time steps are drawn from {0, 1us, 0.5s, 1s, 6s, 1h, 1d, 10d, 45d, 200d} with reward interval 2-5; " +
 			"oracle per gauge per BeginBlock from balance snapshots (cross-checked with the transfer event log): nothing moves in non-reward blocks or outside [start,end]; inside, cumulative release == floor(deposited*(t-start)us/(end-start)us) +-1 per denom, non-decreasing, <= deposited (deposited = everything that entered the escrow account); " +
 			"non-trivial signature = (amount magnitude, duration class, gauge kind, number of reward blocks seen inside the interval (capped), concurrent gauges)",
 		Assumptions: []string{
@@ -75,9 +75,15 @@ func runC12(rc *RunCtx) {
 	const GB = int64(1_000_000_000)
 	nG := 1 + rc.Intn(6)
 	twin := rc.Chance(0.35)
+	// crowd: more than a hundred gauges alive at once (every one of them has to stream at every reward block)
+	crowd := rc.Chance(0.07)
+	if crowd {
+		nG = 101 + rc.Intn(40)
+		rc.Count("histories_with_over_100_live_gauges", 1)
+	}
 	created := 0
 	mk := func() {
-		if rc.Chance(0.35) {
+		if crowd || rc.Chance(0.35) {
 			// pay-once post
 			f := gen.NewFile(randBytes(rc.Rng, int64(1+rc.Intn(200))), 1024)
 			ahead := []int64{14_400, 14_401, 30_000, 432_000, 5_256_000, 15_768_000}[rc.Intn(6)]
@@ -106,7 +112,7 @@ func runC12(rc *RunCtx) {
 	for created < nG {
 		mk()
 		created++
-		if rc.Chance(0.5) {
+		if (!crowd && rc.Chance(0.5)) || (crowd && rc.Chance(0.03)) {
 			if !step(stepDts[rc.Intn(len(stepDts))]) {
 				return
 			}
@@ -132,7 +138,7 @@ func runC12(rc *RunCtx) {
 		if !step(dt) {
 			return
 		}
-		if rc.Chance(0.08) && created < 8 {
+		if rc.Chance(0.08) && (created < 8 || crowd) {
 			mk()
 			created++
 		}
